@@ -183,6 +183,7 @@ def step (s : DState) (ws : List String) : DState × String :=
       ({ prog := p, code := code, script := script }, Hex.encode script)
     | none => (s, "bad-prog")
   | ["layout"] => (s, if layoutOK s.code then "ok" else "bad")
+  | ["accepted"] => (s, if accepted s.prog then "yes" else "no")
   | ["offset", f] =>
     match funcIndex s.prog f with
     | some i => match debugOffset s.code s.prog.length i with
